@@ -320,6 +320,78 @@ func c11Run(r *rt.Rec, rng *rand.Rand, n int) {
 				break
 			}
 		}
+		// the same grouped query with LIMIT n: min(n, G) of the G group rows,
+		// unchanged (the limit applies to the groups, not to what is aggregated)
+		if !bad && rng.Intn(2) == 0 {
+			G := len(groups)
+			lim := rng.Intn(G + 2)
+			ql := *q
+			ql.Limit = fmt.Sprintf(`"%d"^^type:int64`, lim)
+			r.Begin(ql.Text())
+			r.Eval(1)
+			lt, _, lerr := bq.Run(ctx, st, ql.Text(), 0, 10)
+			wantN := lim
+			if G < wantN {
+				wantN = G
+			}
+			ww := func() map[string]interface{} {
+				m := w()
+				m["statement"], m["grouped_statement"] = ql.Text(), text
+				return m
+			}
+			if lerr != nil || lt == nil {
+				m := ww()
+				m["error"] = fmt.Sprint(lerr)
+				r.Violation("groupby-limit/unexpected-error/"+class, "LIMIT made the grouped query fail: "+fmt.Sprint(lerr), m)
+			} else {
+				// match every row with the row of its group in the unlimited result;
+				// float sums may differ in the last bits (the order of addition is
+				// not fixed), everything else must be identical
+				var extra []string
+				seenKey := map[string]bool{}
+				for _, row := range lt.Rows() {
+					var key []string
+					for _, b := range groupOut {
+						key = append(key, cv.Cell(row[b]))
+					}
+					k := strings.Join(key, "\x1e")
+					fr := got[k]
+					same := len(fr) == 1 && !seenKey[k]
+					seenKey[k] = true
+					if same {
+						for _, a := range aggs {
+							x, y := row[a.out], fr[0][a.out]
+							if cv.Cell(x) == cv.Cell(y) {
+								continue
+							}
+							fx, ex := 0.0, fmt.Errorf("no literal")
+							fy, ey := 0.0, fmt.Errorf("no literal")
+							if x != nil && x.L != nil {
+								fx, ex = x.L.Float64()
+							}
+							if y != nil && y.L != nil {
+								fy, ey = y.L.Float64()
+							}
+							if a.op != "sum" || ex != nil || ey != nil || !floatsClose(fx, fy, len(groups[k].rows)) {
+								same = false
+							}
+						}
+					}
+					if !same {
+						extra = append(extra, cv.Row(row, q.OutBindings()))
+					}
+				}
+				lrows := lt.Rows()
+				if len(extra) > 0 {
+					m := ww()
+					m["rows_not_in_grouped_result"] = showAll(extra, 4)
+					r.Violation("groupby-limit/changed-group-rows/"+class, fmt.Sprintf("with LIMIT %d the grouped query returns %d rows that the query without LIMIT does not return (aggregates computed from truncated solutions?)", lim, len(extra)), m)
+				} else if len(lrows) != wantN {
+					r.Violation("groupby-limit/row-count/"+class, fmt.Sprintf("with LIMIT %d the grouped query returns %d rows, there are %d groups", lim, len(lrows), G), ww())
+				}
+				r.Count("grouped_queries_with_limit", 1)
+			}
+		}
 		// non-trivial: >=2 groups, one of size >=2, and a mixed-kind key column
 		// or a duplicate value inside a group
 		if !bad && len(groups) >= 2 {
@@ -352,7 +424,7 @@ func init() {
 	register(&rt.Check{
 		ID:    "C11",
 		Level: "exploration",
-		Rule: "dense random data with int64 and float64 facts x 1-2 clause patterns x aggregate queries: 1-2 grouping bindings or aliases (columns mixing nodes, predicates, literals of several types), any mix of count / count(distinct) / sum projections (also the same binding aggregated twice), shuffled projection and GROUP BY order, patterns without solutions; " +
+		Rule: "dense random data with int64 and float64 facts x 1-2 clause patterns x aggregate queries: 1-2 grouping bindings or aliases (columns mixing nodes, predicates, literals of several types), any mix of count / count(distinct) / sum projections (also the same binding aggregated twice), shuffled projection and GROUP BY order, patterns without solutions, the grouped query again with LIMIT n (min(n, groups) unchanged group rows); " +
 			"oracle, decoupled from C03: the grouped result is compared with a reference grouping of the rows the real engine returns for the same pattern without GROUP BY (group key = canonical values; count = group size; distinct = distinct canonical values; sum in int64 / float64 arithmetic with a relative tolerance); exactly one row per group; empty pattern => empty table, no error; non-trivial = >=2 groups, one of size >=2, and a mixed-kind key column or a duplicate value inside a group; distinct by statement text",
 		Assume: []string{"sum is only generated over bindings whose values are all int64 or all float64", "the ungrouped SELECT of the same pattern is the input of the reference grouping (C03 ties it to the data)"},
 		Floor:  100,
